@@ -166,6 +166,12 @@ func runSolver(ctx context.Context, s solverSpec, file string, ms int) (status, 
 
 // solve discharges one obligation; obligations with path hypotheses are first tried as a
 // whole (short), then once per path: every path must be discharged.
+// coverage of a case split depends only on the state it was taken in
+var (
+	covMu    sync.Mutex
+	covCache = map[string]string{}
+)
+
 func solve(workDir string, idx int, fx *FuncCtx, ob *Obligation, probes []string, timeoutMs int, stringsTheory bool) *Result {
 	if len(ob.Paths) > 1 {
 		first := timeoutMs / 4
@@ -174,16 +180,47 @@ func solve(workDir string, idx int, fx *FuncCtx, ob *Obligation, probes []string
 			return r
 		}
 		os.Remove(r.Query)
-		var total int64 = r.Ms
-		for k, h := range ob.Paths {
+		// The case split is only a proof if the cases cover the reach condition: the recorded
+		// edge conditions come from the longest incoming history of each join, and a path that
+		// bypassed one of those joins satisfies none of its alternatives. Prove coverage first.
+		cov := *ob
+		cov.Clause, cov.Paths, cov.Cover = nil, nil, false
+		cov.Kind, cov.Goal = "pathcov", or(ob.Paths...)
+		covKey := fx.fn.String() + "|" + ob.Reach + "|" + strings.Join(ob.Paths, "|")
+		covMu.Lock()
+		known, seen := covCache[covKey]
+		covMu.Unlock()
+		var cr *Result
+		if seen {
+			cr = &Result{Status: known}
+		} else {
+			cr = solveOne(workDir, idx*100+1999999, fx, &cov, nil, 4000, stringsTheory, "")
+			covMu.Lock()
+			covCache[covKey] = cr.Status
+			covMu.Unlock()
+		}
+		paths := ob.Paths
+		if cr.Status != "discharged" {
+			if len(ob.PathsLast) < 2 {
+				r.Detail = "case split over paths not used: the cases are not shown to cover the reach condition; " + r.Detail
+				return r
+			}
+			paths = ob.PathsLast // the most recent join alone: covers by construction
+		} else if cr.Query != "" {
+			os.Remove(cr.Query)
+		}
+		var total int64 = r.Ms + cr.Ms
+		for k, h := range paths {
 			pr := solveOne(workDir, idx*100+k+1000000, fx, ob, probes, timeoutMs, stringsTheory, h)
 			total += pr.Ms
 			if pr.Status != "discharged" {
 				pr.Ms = total
-				pr.Detail = fmt.Sprintf("path %d of %d: %s %s", k+1, len(ob.Paths), truncate(h, 200), pr.Detail)
+				pr.Detail = fmt.Sprintf("path %d of %d: %s %s", k+1, len(paths), truncate(h, 200), pr.Detail)
 				return pr
 			}
-			os.Remove(pr.Query)
+			if os.Getenv("GVC_KEEPALL") == "" {
+				os.Remove(pr.Query)
+			}
 		}
 		r.Status, r.Solver, r.Ms = "discharged", "per-path", total
 		return r
